@@ -51,7 +51,14 @@ func run(pass *analysis.Pass) (any, error) {
 	// TODO(dh): support conversions between type parameters
 	fn := func(c inspector.Cursor) {
 		node := c.Node()
-		if unary, ok := c.Parent().Node().(*ast.UnaryExpr); ok && unary.Op == token.AND {
+		parent := c.Parent()
+		for {
+			if _, ok := parent.Node().(*ast.ParenExpr); !ok {
+				break
+			}
+			parent = parent.Parent()
+		}
+		if unary, ok := parent.Node().(*ast.UnaryExpr); ok && unary.Op == token.AND {
 			// Do not suggest type conversion between pointers
 			return
 		}
